@@ -500,7 +500,15 @@ class SVEval:
         if k == "field" or k == "mcall" or k == "path" or k == "call":
             # an Option we know nothing about: both cases, named after the expression
             t = expr_text(e)
-            vals = self.eval(e, o)
+            guard = self.__dict__.setdefault("_opt_guard", set())
+            if id(e) in guard:
+                # we are already evaluating this very expression as an Option (eval -> eval_mcall -> eval_opt): name it and stop
+                return [([t + " is Some"], ("opt", ("var", t)), False, env), ([t + " is None"], ("none",), False, env)]
+            guard.add(id(e))
+            try:
+                vals = self.eval(e, o)
+            finally:
+                guard.discard(id(e))
             v0 = vals[0][1] if vals else ("var", t)
             if v0 is not None and v0[0] in ("opt", "none"):
                 return [(c, v, r, en) for (c, v, r, en) in vals]
